@@ -5,7 +5,8 @@ import NasimModel.Props.C18
 # Source tie: the simple validators of the scenario loader
 
 `_validate_subnets`, `_validate_topology`, `_validate_os / _services / _processes`, `_is_valid_subnet_ID`,
-`_is_valid_host_address`, `_validate_scan_cost` and the step-limit test of `nasim/scenarios/loader.py`, translated
+`_is_valid_host_address`, `_validate_scan_cost`, `_is_valid_firewall_setting`, `_contains_all_required_firewalls`,
+`_validate_firewall` and the step-limit test of `nasim/scenarios/loader.py`, translated
 from their source text over the YAML AST (`Generated/SrcLoad.lean`), accept exactly what the model's `subnetsOk`,
 `topologyOk`, `namesOk`, `validSubnetId`, `validHostAddr`, `scanCostOk`, `stepLimitOf` accept — so the C18 theorems
 about these rules (`C18_subnets`, `C18_topology`, `C18_names`, `C18_scan_cost`, `C18_step_limit`, the address tests
@@ -377,5 +378,94 @@ theorem Src_fw_setting (services : List Y) (f : Y) :
       rw [List.range_eq_range', hd]
       cases noDupY l <;> rfl
   | _ => simp [Y.isList]
+
+theorem any_enum_zipIdx {α : Type} (l : List α) (k : Nat) (f : Nat → α → Bool) :
+    ((List.range' k l.length).zip l).any (fun p => f p.1 p.2) = (l.zipIdx k).any (fun p => f p.2 p.1) := by
+  induction l generalizing k with
+  | nil => rfl
+  | cons x xs ih =>
+    simp only [List.length_cons, List.range'_succ, List.zip_cons_cons, List.any_cons, List.zipIdx_cons]
+    rw [ih (k + 1)]
+
+theorem all_not_any {α : Type} (l : List α) (p : α → Bool) : l.all p = !l.any (fun x => !p x) := by
+  induction l with
+  | nil => rfl
+  | cons x xs ih => simp only [List.all_cons, List.any_cons, ih]; cases p x <;> simp
+
+/-- `_contains_all_required_firewalls` -/
+theorem Src_required_firewalls (topo : List (List Int)) (m : List (Y × Y)) :
+    SrcLoad.ScenarioLoader._contains_all_required_firewalls topo m = hasRequiredFw topo m := by
+  unfold SrcLoad.ScenarioLoader._contains_all_required_firewalls hasRequiredFw
+  have hin : ∀ (src : Nat) (row : List Int),
+      (match PyRt.forEach (β := Bool) (PyRt.enumerate row) () (fun q _ =>
+          if (src == q.1) = true then PyRt.Ctl.next ()
+          else if (q.2 == (1 : Int) && (!(getKey m (showPair src q.1)).isSome || !(getKey m (showPair q.1 src)).isSome)) = true
+            then PyRt.Ctl.ret false else PyRt.Ctl.next ()) with
+        | .ret v => (PyRt.Ctl.ret v : PyRt.Ctl Bool Unit)
+        | .next _ => PyRt.Ctl.next ()) =
+      if (PyRt.enumerate row).any (fun q => !(src == q.1) && (q.2 == (1 : Int) &&
+          (!(getKey m (showPair src q.1)).isSome || !(getKey m (showPair q.1 src)).isSome))) then .ret false else .next () := by
+    intro src row
+    rw [← forEach_find]
+    have : ∀ (l : List (Nat × Int)), PyRt.forEach (β := Bool) l () (fun q _ =>
+          if (src == q.1) = true then PyRt.Ctl.next ()
+          else if (q.2 == (1 : Int) && (!(getKey m (showPair src q.1)).isSome || !(getKey m (showPair q.1 src)).isSome)) = true
+            then PyRt.Ctl.ret false else PyRt.Ctl.next ()) =
+        PyRt.forEach (β := Bool) l () (fun q _ => if (!(src == q.1) && (q.2 == (1 : Int) &&
+          (!(getKey m (showPair src q.1)).isSome || !(getKey m (showPair q.1 src)).isSome))) = true then .ret false else .next ()) := by
+      intro l
+      apply forEach_congr
+      intro q _ t
+      cases hs : (src == q.1) <;> simp
+    rw [this]
+    cases PyRt.forEach (β := Bool) (PyRt.enumerate row) () _ <;> rfl
+  show (match PyRt.forEach (β := Bool) (PyRt.enumerate topo) () (fun p _ =>
+      match PyRt.forEach (β := Bool) (PyRt.enumerate p.2) () (fun q _ =>
+          if (p.1 == q.1) = true then PyRt.Ctl.next ()
+          else if (q.2 == (1 : Int) && (!(getKey m (showPair p.1 q.1)).isSome || !(getKey m (showPair q.1 p.1)).isSome)) = true
+            then PyRt.Ctl.ret false else PyRt.Ctl.next ()) with
+        | .ret v => (PyRt.Ctl.ret v : PyRt.Ctl Bool Unit)
+        | .next _ => PyRt.Ctl.next ()) with
+      | .ret v => v
+      | .next _ => true) = _
+  simp only [hin]
+  rw [forEach_find]
+  unfold PyRt.enumerate
+  simp only [List.range_eq_range']
+  rw [any_enum_zipIdx topo 0 (fun src row => ((List.range' 0 row.length).zip row).any (fun q => !(src == q.1) && (q.2 == (1 : Int) &&
+      (!(getKey m (showPair src q.1)).isSome || !(getKey m (showPair q.1 src)).isSome))))]
+  rw [all_not_any]
+  have : ∀ (b : Bool), (match (if b = true then (PyRt.Ctl.ret false : PyRt.Ctl Bool Unit) else PyRt.Ctl.next ()) with
+      | .ret v => v | .next _ => true) = !b := by intro b; cases b <;> rfl
+  rw [this]
+  congr 1
+  apply any_congr_mem
+  intro p _
+  rw [any_enum_zipIdx p.1 0 (fun dst col => !(p.2 == dst) && (col == (1 : Int) &&
+      (!(getKey m (showPair p.2 dst)).isSome || !(getKey m (showPair dst p.2)).isSome)))]
+  rw [all_not_any, Bool.not_not]
+  apply any_congr_mem
+  intro q _
+  simp only [bne]
+  generalize (p.2 == q.2) = a
+  generalize (q.1 == (1 : Int)) = b
+  generalize (getKey m (showPair p.2 q.2)).isSome = c
+  generalize (getKey m (showPair q.2 p.2)).isSome = d
+  cases a <;> cases b <;> cases c <;> cases d <;> rfl
+
+/-- `_validate_firewall`: every required rule is there and every rule is a list of distinct known services -/
+theorem Src_validate_firewall (topo : List (List Int)) (services : List Y) (m : List (Y × Y)) :
+    SrcLoad.ScenarioLoader._validate_firewall topo services m =
+      (hasRequiredFw topo m && m.all (fun kv => fwSettingOk services kv.2)) := by
+  unfold SrcLoad.ScenarioLoader._validate_firewall
+  rw [Src_required_firewalls]
+  cases hasRequiredFw topo m
+  · rfl
+  · simp only [Bool.not_true, Bool.false_eq_true, if_false, Bool.true_and]
+    rw [forEach_all' (m.map (·.2)) _ (fun f => fwSettingOk services f) (fun f _ => by rw [Src_fw_setting])]
+    have e : (m.map (·.2)).all (fun f => fwSettingOk services f) = m.all (fun kv => fwSettingOk services kv.2) := by
+      rw [List.all_map]; rfl
+    rw [e]
+    cases m.all (fun kv => fwSettingOk services kv.2) <;> rfl
 
 end NASim
